@@ -14,6 +14,8 @@ VARIABLE c
 \*               or without --follow-links; the option is about linked directories)
 \* sibling_prefix_root  under a second DIRECTORIES argument whose path starts with the characters of the first one (root1, root1-types)
 \* prefix_crate_dirs    the directory arguments are three crate directories, one of them named like another plus a suffix (ca, ca-types)
+\* ann_*_alone   an ordinary file whose ONLY annotated item is annotated in another spelling than #[typeshare] (through the crate path,
+\*               through the absolute path ::typeshare::typeshare, with blanks inside the brackets)
 \* no_src        a crate directory without a src directory (single-file mode only: folder mode names files after the directory above src)
 Init == c \in { r \in [place : Places, mode : Modes, lang : Langs] : r.place = "no_src" => r.mode = "single" }
 Next == UNCHANGED c
